@@ -2,6 +2,7 @@ package zygo
 
 import (
 	"bytes"
+	"encoding/json"
 	"fmt"
 	"github.com/shurcooL/go-goon"
 	"github.com/ugorji/go/codec"
@@ -98,6 +99,29 @@ func JsonToSexp(json []byte, env *Zlisp) (Sexp, error) {
 	return GoToSexp(iface, env)
 }
 
+// jsonQuote returns s as a JSON string literal. The language's
+// own printer (strconv.Quote) is not usable here: it writes
+// escapes such as \a, \v and \x01 that JSON does not have.
+func jsonQuote(s string) string {
+	by, err := json.Marshal(s)
+	if err != nil {
+		panic(err)
+	}
+	return string(by)
+}
+
+// jsonKeyText is the text of a hash key as it appears in JSON:
+// the name of a symbol key, the contents of a string key.
+func jsonKeyText(key Sexp) string {
+	switch k := key.(type) {
+	case *SexpSymbol:
+		return k.name
+	case *SexpStr:
+		return k.S
+	}
+	return key.SexpString(nil)
+}
+
 // sexp -> json
 func SexpToJson(exp Sexp) string {
 	switch e := exp.(type) {
@@ -106,14 +130,19 @@ func SexpToJson(exp Sexp) string {
 	case *SexpArray:
 		return e.jsonArrayHelper()
 	case *SexpSymbol:
-		return `"` + e.name + `"`
-	default:
-		return exp.SexpString(nil)
+		return jsonQuote(e.name)
+	case *SexpStr:
+		return jsonQuote(e.S)
+	case *SexpSentinel:
+		if e == SexpNull {
+			return "null"
+		}
 	}
+	return exp.SexpString(nil)
 }
 
 func (hash *SexpHash) jsonHashHelper() string {
-	str := fmt.Sprintf(`{"Atype":"%s", `, hash.TypeName)
+	str := `{"Atype":` + jsonQuote(hash.TypeName) + `, `
 
 	ko := []string{}
 	n := len(hash.KeyOrder)
@@ -122,11 +151,11 @@ func (hash *SexpHash) jsonHashHelper() string {
 	}
 
 	for _, key := range hash.KeyOrder {
-		keyst := key.SexpString(nil)
+		keyst := jsonKeyText(key)
 		ko = append(ko, keyst)
 		val, err := hash.HashGet(nil, key)
 		if err == nil {
-			str += `"` + keyst + `":`
+			str += jsonQuote(keyst) + `:`
 			str += string(SexpToJson(val)) + `, `
 		} else {
 			panic(err)
@@ -135,7 +164,7 @@ func (hash *SexpHash) jsonHashHelper() string {
 
 	str += `"zKeyOrder":[`
 	for _, key := range ko {
-		str += `"` + key + `", `
+		str += jsonQuote(key) + `, `
 	}
 	if n > 0 {
 		str = str[:len(str)-2]
